@@ -80,45 +80,69 @@ def _run_chunk(harness, header, execs, wd, tag, timeout, env, extra_args):
     return results
 
 
-def run_and_validate(chk, harness, header, execs, module, cfg, nproc=None, timeout=900, env=None,
-                     extra_args=(), tlc_env=None, tag="t"):
-    """Execute all executions on the real library, validate every recorded execution with TLC.
-    Returns (n_accepted, [Rejection...], n_events)."""
+def execute(chk, harness, header, execs, nproc=None, timeout=900, env=None, extra_args=(), tag="t"):
+    """run executions on the real library; returns list of (exec_lines, events)"""
     nproc = nproc or min(vlib.NCPU, max(1, len(execs) // 4), 12)
-    chunks = [execs[i::nproc] for i in range(nproc)]
-    chunks = [c for c in chunks if c]
-    wd = chk.wd
+    chunks = [c for c in (execs[i::nproc] for i in range(nproc)) if c]
     with concurrent.futures.ThreadPoolExecutor(max_workers=nproc) as ex:
-        futs = [ex.submit(_run_chunk, harness, header, c, wd, "%s%d" % (tag, i), timeout, env, extra_args)
+        futs = [ex.submit(_run_chunk, harness, header, c, chk.wd, "%s%d" % (tag, i), timeout, env, extra_args)
                 for i, c in enumerate(chunks)]
-        ran = [f.result() for f in futs]
-
-    def validate(i, pairs):
-        tp = os.path.join(wd, "%s_val%d.ndjson" % (tag, i))
-        with open(tp, "w") as f:
-            for (_lines, evs) in pairs:
-                f.write("\n".join(evs) + "\n")
-        acc, rej, nev = vlib.validate_executions(module, cfg, tp, wd, env=tlc_env, max_rejects=2)
         out = []
-        for (idx, line_in_exec, evlines) in rej:
-            lines, evs = pairs[idx]
+        for f in futs:
+            out += f.result()
+    return out
+
+
+def validate_pairs(chk, pairs, module, cfg, nproc=None, tlc_env=None, tag="v"):
+    """TLC judges recorded executions. pairs: list of (exec_lines, events[, extra]). Returns (accepted, [(pair, Rejection)], nevents)"""
+    if not pairs:
+        return 0, [], 0
+    nev = sum(len(p[1]) for p in pairs)
+    nproc = nproc or max(1, min(vlib.NCPU - 2, 12, nev // 3000 + 1))
+    # balance chunks by event count
+    order = sorted(range(len(pairs)), key=lambda i: -len(pairs[i][1]))
+    chunks = [[] for _ in range(nproc)]
+    loads = [0] * nproc
+    for i in order:
+        k = loads.index(min(loads))
+        chunks[k].append(pairs[i])
+        loads[k] += len(pairs[i][1])
+    chunks = [c for c in chunks if c]
+
+    def validate(i, chunk):
+        tp = os.path.join(chk.wd, "%s_val%d.ndjson" % (tag, i))
+        with open(tp, "w") as f:
+            for p in chunk:
+                f.write("\n".join(p[1]) + "\n")
+        acc, rej, n = vlib.validate_executions(module, cfg, tp, chk.wd, env=tlc_env, max_rejects=2)
+        out = []
+        for (idx, line_in_exec, _evlines) in rej:
+            lines, evs = chunk[idx][0], chunk[idx][1]
             last = evs[-1] if evs else ""
             why = "crash" if '"op":"crash"' in last and line_in_exec >= len(evs) - 1 else \
                   "hang" if '"op":"hang"' in last and line_in_exec >= len(evs) - 1 else "rejected"
-            out.append(Rejection(lines, line_in_exec, evs, why))
+            out.append((chunk[idx], Rejection(lines, line_in_exec, evs, why)))
         if not os.environ.get("VERIF_KEEP"):
             os.unlink(tp)
-        return acc, out, nev
+        return acc, out, n
 
     acc_total, rejs, nev_total = 0, [], 0
-    with concurrent.futures.ThreadPoolExecutor(max_workers=nproc) as ex:
-        futs = [ex.submit(validate, i, pairs) for i, pairs in enumerate(ran) if pairs]
+    with concurrent.futures.ThreadPoolExecutor(max_workers=len(chunks)) as ex:
+        futs = [ex.submit(validate, i, c) for i, c in enumerate(chunks)]
         for f in futs:
             a, r, n = f.result()
             acc_total += a
             rejs += r
             nev_total += n
     return acc_total, rejs, nev_total
+
+
+def run_and_validate(chk, harness, header, execs, module, cfg, nproc=None, timeout=900, env=None,
+                     extra_args=(), tlc_env=None, tag="t"):
+    """Execute on the real library, validate with TLC. Returns (n_accepted, [Rejection...], n_events)."""
+    pairs = execute(chk, harness, header, execs, nproc=nproc, timeout=timeout, env=env, extra_args=extra_args, tag=tag)
+    acc, rej, nev = validate_pairs(chk, pairs, module, cfg, nproc=nproc, tlc_env=tlc_env, tag=tag)
+    return acc, [r for (_p, r) in rej], nev
 
 
 def confirm(chk, harness, header, rej, module, cfg, timeout=300, env=None, extra_args=(), tlc_env=None):
@@ -129,46 +153,67 @@ def confirm(chk, harness, header, rej, module, cfg, timeout=300, env=None, extra
 
 
 class Campaign:
-    """Accumulates runs of one check: counts, rejections, and the final report with the
-    verdict rule of DESIGN.md 2.4 (reproduce once, then VIOLATION unless a known finding matches)."""
+    """Accumulates the runs of one check.  run() executes scripts on the real library right away;
+    the recorded executions of all runs are validated together by a few TLC processes in flush()
+    (one JVM start per chunk instead of per run).  report() applies the verdict rule of DESIGN.md 2.4
+    (reproduce once, then VIOLATION unless a known finding matches)."""
 
     def __init__(self, chk, harness, module, cfg, env=None, tlc_env=None, extra_args=()):
         self.chk, self.harness, self.module, self.cfg = chk, harness, module, cfg
         self.env, self.tlc_env, self.extra_args = env, tlc_env, extra_args
         self.accepted = 0
         self.events = 0
+        self.pending = []          # (exec_lines, events, (header, origin))
         self.rejections = []       # (header, Rejection, origin)
 
     def enough(self):
         return len(self.rejections) >= 3
 
-    def run(self, header, execs, origin, sample=True, variant=""):
+    def run(self, header, execs, origin, sample=True, variant="", harness=None):
         if self.enough() or not execs:
             return
-        acc, rej, nev = run_and_validate(self.chk, self.harness, header, execs, self.module, self.cfg,
-                                         env=self.env, tlc_env=self.tlc_env, extra_args=self.extra_args,
-                                         tag=origin.replace("/", "_"))
-        self.accepted += acc
-        self.events += nev
-        self.rejections += [(header, r, origin) for r in rej]
+        pairs = execute(self.chk, harness or self.harness, header, execs, env=self.env, extra_args=self.extra_args,
+                        tag=origin.replace("/", "_"))
+        self.pending += [(l, e, (header, origin, harness or self.harness)) for (l, e) in pairs]
         for e in execs:
             self.chk.seen("|".join(e) + "#" + variant + origin)
         if sample and execs:
             self.chk.sample({origin: execs[len(execs) // 2][:14]})
-        self.chk.lap("%s: %d executions, %d events, %d rejected" % (origin, len(execs), nev, len(rej)))
+        self.chk.lap("%s: %d executions run, %d events" % (origin, len(execs), sum(len(e) for (_l, e) in pairs)))
+        if sum(len(p[1]) for p in self.pending) > 60000:
+            self.flush()
+
+    def flush(self):
+        if not self.pending:
+            return
+        acc, rej, nev = validate_pairs(self.chk, self.pending, self.module, self.cfg, tlc_env=self.tlc_env)
+        self.accepted += acc
+        self.events += nev
+        for (pair, r) in rej:
+            header, origin, harness = pair[2]
+            r.harness = harness
+            self.rejections.append((header, r, origin))
+        self.chk.lap("validated %d events, %d executions accepted, %d rejected" % (nev, acc, len(rej)))
+        self.pending = []
 
     def report(self, known=None, describe=None):
         """known(rej, ev) -> finding id or None.  Returns number of violations reported."""
+        self.flush()
         chk = self.chk
         chk.cov["traces_validated_against_impl"] = chk.cov.get("traces_validated_against_impl", 0) + self.accepted
         chk.cov["evaluations"] = chk.cov.get("evaluations", 0) + self.events
         n = 0
-        for hdr, rej, origin in self.rejections[:4]:
-            if not confirm(chk, self.harness, hdr, rej, self.module, self.cfg, env=self.env,
+        reported = set()
+        for hdr, rej, origin in self.rejections[:6]:
+            ev = rej.failing_event()
+            sig = (origin.split("/")[0], ev.get("op"), ev.get("what"), ev.get("exc"), rej.why)
+            if sig in reported:
+                continue
+            reported.add(sig)
+            if not confirm(chk, getattr(rej, "harness", self.harness), hdr, rej, self.module, self.cfg, env=self.env,
                            extra_args=self.extra_args, tlc_env=self.tlc_env):
                 raise vlib.ToolError("rejection from %s did not reproduce; not reported as a violation\n%s" %
                                      (origin, "\n".join(hdr + rej.lines)[-1500:]))
-            ev = rej.failing_event()
             fid = known(rej, ev) if known else None
             ctx = " ; ".join(rej.lines[max(0, rej.event_index - 3): rej.event_index + 1])
             what = "%s: %s at event %d op=%s exc=%s [%s]" % (origin, rej.why, rej.event_index, ev.get("op"),
